@@ -477,9 +477,48 @@ Val manyOpen(const Val &c)
 }
 }
 
+namespace {
+// the server stops listening (Server::close(), a graceful shutdown) while n accepted TLS connections have not finished their
+// handshake yet; then the handshakes complete and each client sends its request:  ( 10 n ) -> ( 10 encrypted answered handlerCalls )
+Val closedMidHandshake(const Val &c)
+{
+    int n = int(c.at(1).asInt());
+    Log log;
+    QObject scope;
+    LogHandler handler(&log, &scope);
+    Server server(&handler);
+    server.setSslConfiguration(tlsConfig());
+    if (!server.listen(QHostAddress::LocalHost, 0)) throw std::runtime_error("nolisten");
+    std::vector<std::unique_ptr<QSslSocket>> cls;
+    std::vector<QByteArray> got(static_cast<size_t>(n));
+    for (int i = 0; i < n; ++i) {
+        cls.emplace_back(new QSslSocket);
+        QSslSocket *k = cls.back().get();
+        k->setPeerVerifyMode(QSslSocket::VerifyNone);
+        QByteArray *g = &got[size_t(i)];
+        QObject::connect(k, &QSslSocket::readyRead, [k, g]() { *g += k->readAll(); });
+        k->connectToHost(QHostAddress::LocalHost, server.serverPort());
+        pumpTill([&]() { return k->state() == QAbstractSocket::ConnectedState; }, 3000);
+        pumpMs(15);                      // accepted by the server; the client has not said hello yet
+    }
+    server.close();
+    pumpMs(20);
+    int enc = 0, answered = 0;
+    for (auto &k : cls) k->startClientEncryption();
+    pumpTill([&]() { for (auto &k : cls) if (!k->isEncrypted() && k->state() == QAbstractSocket::ConnectedState) return false; return true; }, 3000);
+    for (auto &k : cls) if (k->isEncrypted()) { ++enc; k->write("GET /h HTTP/1.1\r\nHost: h\r\n\r\n"); k->flush(); }
+    pumpTill([&]() { for (auto &k : cls) if (k->state() != QAbstractSocket::UnconnectedState) return false; return true; }, 2000);
+    for (auto &g : got) if (g.startsWith("HTTP/1.")) ++answered;
+    for (auto &k : cls) k->abort();
+    pumpMs(40);
+    return Val::List({Val::Int(10), Val::Int(enc), Val::Int(answered), Val::Int(log.handler)});
+}
+}
+
 static Val run_tls(const Val &c)
 {
     int mode = int(c.at(0).asInt());
+    if (mode == 10) return closedMidHandshake(c);
     if (mode == 9) return manyOpen(c);
     if (mode == 8) return configuredLater(c);
     if (mode == 7) return serverHistory(c);
